@@ -10,8 +10,8 @@ The case list is a pure function of (VERIF_SEED, tier, committed corpus /verif/c
      STRICT mode (each frame call's data in an exact-size heap block) and, only while the pervasive bit-reader
      over-read is an *open* known finding, also in SLACK mode (8 readable bytes behind the data);
   2. N fresh inputs from the deterministic structured mutator gen/c10_mutate.py, input i = mutant(VERIF_SEED, i,
-     seeds) (N = 20000 quick / 2000000 thorough, split over workers by index ranges), in STRICT mode (+ SLACK for
-     the first quarter while the over-read finding is open).
+     seeds) (N = 20000 quick / 300000 thorough - about 110 sessions/s on 8 workers -, split over workers by
+     index ranges), in STRICT mode (+ SLACK for the first quarter while the over-read finding is open).
 Inputs run in batches inside one process (fast path); every input that produced sanitizer output, a crash or a
 stall is re-run alone in a fresh process with log files, and the canonical report keys of that run are what is
 reported through chk.violation(key, ...).
@@ -32,6 +32,7 @@ PID = "C10"
 CORPUS = os.path.join(build.VERIF, "corpus", "c10")
 OVERREAD_KEYS = ("C10|asan|heap-buffer-overflow|dec_bits_init|READ", "C10|asan|heap-buffer-overflow|dec_get_bits|READ")
 BATCH = 250
+CORPUS_BATCH = 16
 BATCH_ALARM = 20  # in-process watchdog per input inside a batch (libFuzzer's -timeout=20): only triggers a re-run alone
 SINGLE_TIMEOUT = 60.0  # one input alone normally takes < 1 s under ASan; a watchdog hit is only "inconclusive"
 
@@ -155,7 +156,7 @@ class BatchStats:
 _E = re.compile(r"E (\d+) rc=([0-9a-f]+) calls=(\d+) pics=(\d+) obus=([0-9a-f]+) dirty=(\d+) asan=(\d+)")
 
 
-def run_pack(exe, pack, n_inputs, slack, prefix, want_cov=True, budget=None):
+def run_pack(exe, pack, n_inputs, slack, prefix, want_cov=True, budget=None, keep_going=False):
     """Run inputs 0..n_inputs-1 of a pack, restarting behind crashes/stalls/ASan stops. -> BatchStats"""
     st = BatchStats()
     start = 0
@@ -166,10 +167,13 @@ def run_pack(exe, pack, n_inputs, slack, prefix, want_cov=True, budget=None):
            "UBSAN_OPTIONS": "halt_on_error=0:print_stacktrace=0:symbolize=0"}
     covfile = prefix + ".cov"
     while start < n_inputs:
+        alarm = BATCH_ALARM
         if budget is not None and budget.exhausted():
-            st.abandoned = n_inputs - start
-            break
-        args = [exe, "--slack", str(slack), "--stop-on-asan", "--alarm", str(BATCH_ALARM), "--from", str(start)]
+            if not keep_going:
+                st.abandoned = n_inputs - start
+                break
+            alarm = 5  # corpus replay goes on, but stalls (already witnessed several times) are cut short
+        args = [exe, "--slack", str(slack), "--stop-on-asan", "--alarm", str(alarm), "--from", str(start)]
         if want_cov:
             args += ["--cov", covfile]
         args.append(pack)
@@ -256,10 +260,10 @@ class Budget:
             self.stalls += 1
 
     def take_stall(self):
-        """re-runs of inputs that stalled a batch (minutes each when the hang is real): the first three only"""
+        """re-runs of inputs that stalled a batch (minutes each when the hang is real): the first two only"""
         with self.lock:
             self.stall_reruns = getattr(self, "stall_reruns", 0) + 1
-            if self.stall_reruns > 3:
+            if self.stall_reruns > 2:
                 self.skipped_dirty += 1
                 return False
             return True
@@ -323,7 +327,7 @@ def run(chk, tier, replay=None):
         return chk.finish(rule="replay of one stored input")
 
     quick = tier == "quick"
-    n_fresh = int((20000 if quick else 2000000) * getattr(chk, "scale", 1))
+    n_fresh = int((20000 if quick else 300000) * getattr(chk, "scale", 1))
     slack_too = _overread_open(chk)
     seeds = mut.load_seeds(CORPUS)
     if not seeds:
@@ -336,10 +340,10 @@ def run(chk, tier, replay=None):
 
     # ---- job list: (kind, slack, lo, hi)
     jobs = []
-    for lo in range(0, len(corpus_inputs), BATCH):
-        jobs.append(("corpus", 0, lo, min(len(corpus_inputs), lo + BATCH)))
+    for lo in range(0, len(corpus_inputs), CORPUS_BATCH):
+        jobs.append(("corpus", 0, lo, min(len(corpus_inputs), lo + CORPUS_BATCH)))
         if slack_too:
-            jobs.append(("corpus", 8, lo, min(len(corpus_inputs), lo + BATCH)))
+            jobs.append(("corpus", 8, lo, min(len(corpus_inputs), lo + CORPUS_BATCH)))
     for lo in range(0, n_fresh, BATCH):
         jobs.append(("fresh", 0, lo, min(n_fresh, lo + BATCH)))
     if slack_too:
@@ -365,12 +369,15 @@ def run(chk, tier, replay=None):
             inputs = [p[0] for p in pairs]
             descs = [p[1] for p in pairs]
         mut.write_pack(pack, inputs)
-        st = run_pack(exe, pack, len(inputs), slack, os.path.join(chk.dir, tag), budget=budget if kind == "fresh" else None)
+        st = run_pack(exe, pack, len(inputs), slack, os.path.join(chk.dir, tag), budget=budget, keep_going=(kind == "corpus"))
         os.unlink(pack)
         found = []
         for idx, why in st.dirty:
             ident = descs[idx] if kind == "corpus" else "seed=%d index=%d" % (chk.seed, lo + idx)
-            if kind != "corpus" and not (budget.take_stall() if why == "watchdog" else budget.take()):
+            if why == "watchdog":
+                if not budget.take_stall():
+                    continue
+            elif kind != "corpus" and not budget.take():
                 continue
             found.append(_judge_dirty(exe, inputs[idx], slack, ident, descs[idx],
                                       "batch-crash" if why != "sanitizer output" else "dirty",
